@@ -132,9 +132,11 @@ def noninterference_case(chk, rng):
         # optionally with a training-size cap (sub-sampling must still draw from the other folds only)
         ntrain = len(df) - len(inside)
         cap = rng.choice([None, int(0.6 * ntrain), int(0.9 * ntrain)])
+        cpred = rng.choice([len(df) // 2 + 3, len(df) - 1, 97, 10 ** 7])
         try:
-            _, m1, s1, _ = mokapot.brew(mkdata.read_dataset(p1), make_model(), test_fdr=0.2, folds=folds, rng=bseed,
-                                        subset_max_train=cap)
+            with P.chunk_sizes(predict=cpred):
+                _, m1, s1, _ = mokapot.brew(mkdata.read_dataset(p1), make_model(), test_fdr=0.2, folds=folds, rng=bseed,
+                                            subset_max_train=cap)
             _, m2, s2, _ = mokapot.brew(mkdata.read_dataset(p2), make_model(), test_fdr=0.2, folds=folds, rng=bseed,
                                         subset_max_train=cap)
         except Exception as e:
@@ -152,6 +154,33 @@ def noninterference_case(chk, rng):
                                     clause="changing labels/features of the rows of a fold changed the model that "
                                            "scores that fold"))
             return
+        # every PSM must have been scored by the model of its own fold (the one that never saw it), whatever the
+        # prediction chunk size: within each fold the returned scores are an increasing function of that model's output
+        from mokapot.dataset import LinearPsmDataset
+        ds1 = mkdata.read_dataset(p1)
+        s1v = np.asarray(s1[0], dtype=float).ravel()
+        for g in range(folds):
+            rows = sorted(int(i) for i in fold_lists[g])
+            sub = df.iloc[rows].copy()
+            sub["Label"] = sub["Label"] == 1
+            lin = LinearPsmDataset(sub, target_column="Label", spectrum_columns=list(ds1.spectrum_columns),
+                                   peptide_column="Peptide", protein_column="Proteins",
+                                   feature_columns=list(ds1.feature_columns), copy_data=True)
+            raw = np.asarray(m1[g].predict(lin), dtype=float).ravel()
+            got = s1v[rows]
+            if learner == "tree":
+                ok = np.array_equal(raw, got)
+            else:
+                ok = np.array_equal(np.argsort(np.argsort(raw, kind="stable"), kind="stable"),
+                                    np.argsort(np.argsort(got, kind="stable"), kind="stable")) or \
+                    np.allclose(np.corrcoef(raw, got)[0, 1], 1.0, atol=1e-9)
+            if not ok:
+                chk.spec_violation("scored-by-another-model",
+                                   dict(seed=seed, learner=learner, folds=folds, fold=g, predict_chunk=cpred,
+                                        clause="the returned scores of a fold are not the output of that fold's model "
+                                               "(a PSM was scored by a model that may have seen it)"))
+                return
+        chk.count("T2-predict-chunk", "smaller-than-table" if cpred < len(df) else "whole-table")
         # the fold assignment is a function of the spectrum keys only
         fold_lists2 = mkdata.read_dataset(p2)._split(folds, np.random.default_rng(bseed))
         if [sorted(map(int, x)) for x in fold_lists] != [sorted(map(int, x)) for x in fold_lists2]:
